@@ -23,6 +23,7 @@ import (
 
 type c08Gen struct {
 	N      int   `json:"n"`
+	Head   int   `json:"head,omitempty"`   // the writer sleeps this many ms before its first line
 	Cuts   []int `json:"cuts,omitempty"`   // the writer sleeps after these line numbers
 	Sleeps []int `json:"sleeps,omitempty"` // milliseconds
 }
@@ -102,6 +103,7 @@ type c08Run struct {
 	exRead     int
 	fail       bool
 	waited     bool
+	missed     bool // a timing window of an xstale/xfresh action was missed: the exclusion is not known exactly
 }
 
 func (r *c08Run) disagree(kind, name string, impl, expect interface{}) {
@@ -586,6 +588,95 @@ func (r *c08Run) do(a c08Act) bool {
 		r.ui(L(I(5)))
 	case "checkpoint":
 		return r.converge("checkpoint")
+	case "xstale", "xfresh":
+		return r.exclDuringReload(a)
+	}
+	return true
+}
+
+// exclDuringReload: an exclusion issued while a (non-sync) reload is under way, in a window in which the list on
+// display cannot change, so that the logged item IS the excluded one:
+//
+//	xstale: the command has not produced its first line yet (it sleeps first): the OLD list is displayed; the
+//	        exclusion refers to the old input and must not survive into the new one;
+//	xfresh: the command has produced its first k lines and sleeps: the list of those k lines is displayed; the
+//	        exclusion refers to the NEW input and must stay in force when the rest arrives.
+//
+// When the window is missed (machine too slow) the case is abandoned as inconclusive, never reported.
+func (r *c08Run) exclDuringReload(a c08Act) bool {
+	if a.Gen <= 0 || a.Gen >= len(r.cs.Gens) || r.paused {
+		return true
+	}
+	if !r.converge("checkpoint") {
+		return false
+	}
+	oldTotal := r.cs.Gens[r.startedGen()].N
+	g := r.cs.Gens[a.Gen]
+	if !r.post("reload(sh " + filepath.Join(r.dir, fmt.Sprintf("g%d.sh", a.Gen)) + ")") {
+		return false
+	}
+	r.posted = a.Gen
+	r.pendingGen = a.Gen
+	r.ui(L(I(4), I(a.Gen), B(false)))
+	exlog := filepath.Join(r.dir, "ex.log")
+	inWindow := func(st *FzfState) bool {
+		if a.K == "xstale" {
+			return st.Reading && st.TotalCount == oldTotal
+		}
+		return st.Reading && len(g.Cuts) > 0 && st.TotalCount == g.Cuts[0]
+	}
+	if a.K == "xstale" {
+		time.Sleep(time.Duration(a.Pause) * time.Millisecond)
+	} else {
+		// wait until exactly the first chunk is loaded and shown as the fresh filter of that chunk
+		if len(g.Cuts) == 0 {
+			return true
+		}
+		k := g.Cuts[0]
+		want, err := r.oracle(r.query, r.sort, r.nth, nil, a.Gen, k)
+		if err != nil {
+			r.disagree("corr", "corr:C08.harness", err.Error(), "oracle runs")
+			return false
+		}
+		deadline := time.Now().Add(time.Duration(g.Sleeps[0]) * time.Millisecond / 2)
+		ok := false
+		for time.Now().Before(deadline) {
+			st, err := r.s.GetLimit(len(want) + 1)
+			if err == nil && inWindow(st) && st.MatchCount == len(want) && len(st.Matches) == len(want) {
+				ok = true
+				for i := range want {
+					if st.Matches[i].Text != want[i] {
+						ok = false
+						break
+					}
+				}
+				if ok {
+					break
+				}
+			}
+			time.Sleep(3 * time.Millisecond)
+		}
+		if !ok {
+			r.missed = true
+			return false
+		}
+	}
+	if !r.post("execute-silent(echo {} >> " + exlog + ")+exclude") {
+		return false
+	}
+	st, err := r.s.GetLimit(1)
+	if err != nil || !inWindow(st) {
+		r.missed = true // the list may have been replaced between logging and excluding
+		return false
+	}
+	gen, ixs, any := r.readExcl()
+	if any {
+		r.excl = append(r.excl, c08Excl{gen, ixs})
+		if gen == r.pendingGen {
+			r.modelLoadPending()
+		}
+		r.ui(L(I(2), intsVal(ixs)))
+		r.c.Rep.Count(fmt.Sprintf("%s:item-of-generation-%s", a.K, map[bool]string{true: "new", false: "old"}[gen == a.Gen]))
 	}
 	return true
 }
@@ -594,6 +685,9 @@ func c08Script(dir string, g int, gen c08Gen) string {
 	var b strings.Builder
 	f := filepath.Join(dir, fmt.Sprintf("g%d.txt", g))
 	fmt.Fprintf(&b, "echo %d >> %s\n", g, filepath.Join(dir, "started.log"))
+	if gen.Head > 0 {
+		fmt.Fprintf(&b, "sleep %d.%03d\n", gen.Head/1000, gen.Head%1000)
+	}
 	from := 1
 	for i, c := range gen.Cuts {
 		if c < from || c >= gen.N {
@@ -690,6 +784,10 @@ func c08RunCase(c *Ctx, cs *c08Case) {
 			time.Sleep(time.Duration(a.Pause) * time.Millisecond)
 		}
 	}
+	if r.missed {
+		c.Rep.Count("inconclusive:window-missed")
+		return
+	}
 	if ok {
 		ok = r.converge("final")
 	}
@@ -775,7 +873,8 @@ func c08Size(r *RNG, stream int) int {
 }
 
 // stream 0: general; 1: payload action immediately followed by a query change while loading (request merging);
-// 2: typing across the end of loading of a big input; 3: search on/off and action lists ending in toggle-search
+// 2: typing across the end of loading of a big input; 3: search on/off and action lists ending in toggle-search;
+// 4: exclude while a reload has not produced its first line yet / right after its first lines
 func c08GenCase(r *RNG, stream int) *c08Case {
 	cs := &c08Case{Seed: r.Next() % 1000000, NoSort: r.Chance(1, 4), Tac: r.Chance(1, 5),
 		Tiebreak: Pick(r, []string{"", "", "begin", "end,length", "index", "chunk"}),
@@ -839,6 +938,26 @@ func c08GenCase(r *RNG, stream int) *c08Case {
 		}
 	}
 	switch stream {
+	case 4:
+		// exclusion while a reload is under way (before its first line / right after its first lines)
+		cs.Gens = []c08Gen{{N: r.Range(50, 3000)}}
+		for k, n := 0, r.Range(0, 2); k < n; k++ {
+			add(c08Act{K: "query", S: Pick(r, []string{"a", "b", "ab", "", "g0", "c", "1"}), Pause: pause()})
+		}
+		if r.Bool() {
+			cs.Gens = append(cs.Gens, c08Gen{N: cs.Gens[0].N + r.Range(0, 2000), Head: r.Range(500, 800)})
+			add(c08Act{K: "xstale", Gen: 1, Pause: r.Range(30, 120)})
+		} else {
+			n := r.Range(200, 5000)
+			cs.Gens = append(cs.Gens, c08Gen{N: n, Cuts: []int{r.Range(20, min(n-1, 400))}, Sleeps: []int{1500}})
+			add(c08Act{K: "xfresh", Gen: 1, Pause: r.Range(0, 50)})
+		}
+		for k, n := 0, r.Range(0, 2); k < n; k++ {
+			queryEdit()
+		}
+		if r.Chance(3, 4) {
+			add(c08Act{K: "clear", Pause: pause()})
+		}
 	case 1:
 		for k, n := 0, r.Range(2, 5); k < n; k++ {
 			if r.Chance(1, 3) {
@@ -1037,7 +1156,7 @@ func runC08(c *Ctx) {
 	n := c.N(208, 3000)
 	cases := []*c08Case{}
 	for i := 0; i < n; i++ {
-		stream := []int{0, 0, 0, 1, 1, 2, 3, 0, 1, 3, 2, 0, 1}[i%13]
+		stream := []int{0, 4, 0, 1, 1, 2, 3, 0, 4, 3, 2, 0, 1}[i%13]
 		cases = append(cases, c08GenCase(c.Rng.Fork(), stream))
 	}
 	c08Parallel(c, append(corpus, cases...), 10)
